@@ -361,3 +361,4 @@ MANIFEST = {
             "types. Objects nested inside containers are outside the property's quantifier.",
     "technique": "CFG dominance of guards + call-edge argument forwarding + key-set agreement (AST)",
 }
+MANIFEST["text"] += ' The delattr sweep over skip_names runs after every restoration loop.'
